@@ -459,6 +459,12 @@ func (root *Root) replaceArgVars(vars map[string]interface{}, v interface{}, at 
 	var err error
 	var ea2 []error
 	val = v
+	// The type the literal must match. Only a NonNull wrapper is removed, a
+	// list type needs a list literal and an input type an object literal.
+	nt := at
+	if nn, _ := nt.(*NonNull); nn != nil {
+		nt = nn.Base
+	}
 	switch tv := val.(type) {
 	case Var:
 		val = vars[string(tv)]
@@ -470,7 +476,7 @@ func (root *Root) replaceArgVars(vars map[string]interface{}, v interface{}, at 
 			}
 		}
 	case map[string]interface{}:
-		if it, _ := BaseType(at).(*Input); it != nil {
+		if it, _ := nt.(*Input); it != nil {
 			for k, v := range tv {
 				var vt Type
 				if f := it.fields.get(k); f != nil {
@@ -482,10 +488,19 @@ func (root *Root) replaceArgVars(vars map[string]interface{}, v interface{}, at 
 			if val, err = it.CoerceIn(val); err != nil {
 				ea = append(ea, resWarnp(nil, "%s", err))
 			}
+		} else if at != nil {
+			// An object literal for something that is not an input object.
+			ea = append(ea, resWarnp(nil, "%s", newCoerceErr(val, at.Name())))
 		}
 	case []interface{}:
+		lt, _ := nt.(*List)
+		if lt == nil && at != nil {
+			// A list literal for something that is not a list.
+			ea = append(ea, resWarnp(nil, "%s", newCoerceErr(val, at.Name())))
+			break
+		}
 		var mt Type
-		if lt, _ := at.(*List); lt != nil {
+		if lt != nil {
 			mt = lt.Base
 		}
 		for i, v := range tv {
@@ -493,10 +508,15 @@ func (root *Root) replaceArgVars(vars map[string]interface{}, v interface{}, at 
 			ea = append(ea, ea2...)
 		}
 	case Symbol:
-		bt := BaseType(at)
-		if et, _ := bt.(*Enum); et != nil {
+		if et, _ := nt.(*Enum); et != nil {
 			if _, has := et.values.dict[string(tv)]; !has {
 				ea = append(ea, resWarnp(nil, "%s is not a valid enum value in %s", tv, et.N))
+			}
+		} else if ic, _ := at.(InCoercer); ic != nil {
+			// An enum value (a bare name) for something that is not an
+			// enum, let the type decide. Scalars and lists reject it.
+			if val, err = ic.CoerceIn(val); err != nil {
+				ea = append(ea, resWarnp(nil, "%s", err))
 			}
 		}
 	default:
